@@ -230,6 +230,36 @@ Theorem dep_model_passes :
 Proof. exact Proofs.C33.dep_model_passes. Qed.
 Print Assumptions dep_model_passes.
 
+(* the property of a selected script list [l], in components: distinct scripts; each belongs to
+   an eligible entry of the de-duplicated set ([times] are their request times); oldest first;
+   and, when every delay lookup answers, their number is min(limit, #eligible) and no left-out
+   eligible request is older than a selected one *)
+Definition red_prop (pending : N * N -> red_look) (delay : N * N -> option Z)
+           (now tmo ma : Z) (entries : list red_event) (cap : Z) (l : list N) : Prop :=
+  NoDup l /\
+  exists times : list Z,
+    Forall2 (fun s t => exists e, In e entries /\ re_script e = s /\
+                                  red_eligible pending delay now tmo ma e = Some t) l times /\
+    StronglySorted Z.le times /\
+    ((forall e, In e entries -> delay (re_wallet e, re_script e) <> None) ->
+     len l = Z.min cap (len (filter (fun e => match red_eligible pending delay now tmo ma e with
+                                              | Some _ => true | None => false end) entries)) /\
+     forall e t, In e entries -> red_eligible pending delay now tmo ma e = Some t ->
+                 In (re_script e) l \/ forall t', In t' times -> t' <= t).
+
+Theorem red_spec_ok_sound :
+  forall c l,
+    red_spec_ok c = true -> rc_out c = RedOk l ->
+    rc_wallet c <> 0%N /\ rc_abt c <> 0 /\
+    exists cur ma tmo evs set,
+      rc_current c = Some cur /\ rc_min_age c = Some ma /\ rc_timeout c = Some tmo /\
+      rc_events c = Some evs /\
+      build_set (red_sorted (rc_wallet c) cur tmo (rc_abt c) evs) [] = Some set /\
+      red_prop (rc_pend c) (rc_del c) (rc_now c) tmo ma (map snd set)
+               (red_cap (rc_pend c) (rc_limit c) set) l.
+Proof. exact Proofs.C33.red_spec_ok_sound. Qed.
+Print Assumptions red_spec_ok_sound.
+
 (* the executable generator property pins the result down to the model's *)
 Theorem gen_spec_ok_iff :
   forall c, gen_spec_ok c = true <-> gc_out c = fst (generate (gc_tasks c) (gc_checklist c)).
